@@ -54,6 +54,21 @@ import Gribi.Gen.FlNewIPv4Entry
 import Gribi.Gen.FlNewIPv6Entry
 import Gribi.Gen.FlNewLabelEntry
 import Gribi.Gen.FlNewNextHopGroupEntry
+import Gribi.Gen.FlNewNextHopEntry
+import Gribi.Gen.FlNWithIndex
+import Gribi.Gen.FlNWithNetworkInstance
+import Gribi.Gen.FlNWithIPAddress
+import Gribi.Gen.FlNWithInterfaceRef
+import Gribi.Gen.FlNWithSubinterfaceRef
+import Gribi.Gen.FlNWithMacAddress
+import Gribi.Gen.FlNWithIPinIP
+import Gribi.Gen.FlNWithNextHopNetworkInstance
+import Gribi.Gen.FlNWithPopTopLabel
+import Gribi.Gen.FlNWithDecapsulateHeader
+import Gribi.Gen.FlNWithEncapsulateHeader
+import Gribi.Gen.FlNWithElectionID
+import Gribi.Gen.FlNOpProto
+import Gribi.Gen.FlNEntryProto
 import Gribi.Gen.FlGetAllNetworkInstances
 import Gribi.Gen.FlGetWithNetworkInstance
 import Gribi.Gen.FlGetWithAFT
@@ -439,6 +454,163 @@ theorem gen_nhg_weighted (s : StG) (c : GNhgCall) (h : weighted s) : weighted (r
     · exact h m hm
     · subst hm; exact ⟨_, _, rfl, rfl⟩
   | _ => exact h
+
+/-! ### next-hops
+
+Translated: the constructor, every `With…` method except `WithPushedLabelStack` (its loop assigns
+through a pointer that nothing in the loop's text says is non-nil) and `AddEncapHeader` (headers
+are values of an interface type); `OpProto`, `EntryProto`. The payload message is allocated by
+the first method that needs it. -/
+
+abbrev StN := NhKeyB × String × Option U128
+
+/-- what the translated methods can set, as the rendering sees it (the header choices by their
+protobuf number) -/
+structure NhObs where
+  index : Nat
+  ni : String
+  hasNh : Bool
+  ip : Option String
+  ifName : Option String
+  subIf : Option Nat
+  mac : Option String
+  ipInIp : Option (String × String)
+  nhNI : Option String
+  popTop : Bool
+  decapE : Nat
+  encapE : Nat
+  elec : Option (Nat × Nat)
+  deriving DecidableEq, Repr
+
+def absN (s : StN) : NhObs :=
+  let nh := s.1.NextHop
+  { index := s.1.Index, ni := s.2.1, hasNh := nh.isSome,
+    ip := (nh.bind (·.IpAddress)).map (·.Value),
+    ifName := ((nh.bind (·.InterfaceRef)).bind (·.Interface)).map (·.Value),
+    subIf := ((nh.bind (·.InterfaceRef)).bind (·.Subinterface)).map (·.Value),
+    mac := (nh.bind (·.MacAddress)).map (·.Value),
+    ipInIp := (nh.bind (·.IpInIp)).map (fun x => ((x.SrcIp.map (·.Value)).getD "", (x.DstIp.map (·.Value)).getD "")),
+    nhNI := (nh.bind (·.NetworkInstance)).map (·.Value),
+    popTop := ((nh.bind (·.PopTopLabel)).map (·.Value)).getD false,
+    decapE := (nh.map (·.DecapsulateHeader)).getD 0,
+    encapE := (nh.map (·.EncapsulateHeader)).getD 0,
+    elec := elecOf s.2.2 }
+
+def obsOfNhB (b : NhB) : NhObs :=
+  { index := b.index, ni := b.ni, hasNh := b.hasNh, ip := b.ip, ifName := b.ifName, subIf := b.subIf, mac := b.mac,
+    ipInIp := b.ipInIp, nhNI := b.nhNI, popTop := b.popTop, decapE := hdrEnum b.decap, encapE := hdrEnum b.encap,
+    elec := b.elec }
+
+def initN : StN := ({ Index := 0, NextHop := none }, "", none)
+
+theorem absN_init : absN initN = obsOfNhB {} := rfl
+
+inductive GNhCall where
+  | index (i : Nat) | ni (n : String) | ip (a : String) | ifRef (n : String) | subIfRef (n : String) (s : Nat)
+  | mac (m : String) | ipInIp (src dst : String) | nhNI (n : String) | popTop
+  | decap (h : Int) | encap (h : Int) | elec (lo hi : UInt64)
+  deriving DecidableEq, Repr
+
+def GNhCall.toModel : GNhCall → NhCall
+  | .index i => .index i | .ni n => .ni n | .ip a => .ip a | .ifRef n => .ifRef n | .subIfRef n s => .subIfRef n s
+  | .mac m => .mac m | .ipInIp s d => .ipInIp s d | .nhNI n => .nhNI n | .popTop => .popTop
+  | .decap h => .decap h.toNat | .encap h => .encap h.toNat | .elec lo hi => .elec lo.toNat hi.toNat
+
+def runN (s : StN) : GNhCall → StN
+  | .index i => flNWithIndex i s.1 s.2.1 s.2.2
+  | .ni n => flNWithNetworkInstance n s.1 s.2.1 s.2.2
+  | .ip a => flNWithIPAddress a s.1 s.2.1 s.2.2
+  | .ifRef n => flNWithInterfaceRef n s.1 s.2.1 s.2.2
+  | .subIfRef n k => flNWithSubinterfaceRef n k s.1 s.2.1 s.2.2
+  | .mac m => flNWithMacAddress m s.1 s.2.1 s.2.2
+  | .ipInIp a b => flNWithIPinIP a b s.1 s.2.1 s.2.2
+  | .nhNI n => flNWithNextHopNetworkInstance n s.1 s.2.1 s.2.2
+  | .popTop => flNWithPopTopLabel s.1 s.2.1 s.2.2
+  | .decap h => flNWithDecapsulateHeader h s.1 s.2.1 s.2.2
+  | .encap h => flNWithEncapsulateHeader h s.1 s.2.1 s.2.2
+  | .elec lo hi => flNWithElectionID lo hi s.1 s.2.1 s.2.2
+
+/-- the table behind `WithDecapsulateHeader` / `WithEncapsulateHeader` is the model's `hdrEnum`:
+IPinIP, MPLS, UDPV6 name the protobuf types 2, 4, 8; anything else (negative numbers included)
+names none -/
+theorem encapTable (f : Int → Nat)
+    (hf : ∀ k, f k = if k = 1 then EncapType_IPV4 else if k = 2 then EncapType_MPLS else if k = 3 then EncapType_UDPV6 else 0)
+    (h : Int) : f h = hdrEnum h.toNat := by
+  rw [hf]
+  by_cases h1 : h = 1
+  · subst h1; rfl
+  by_cases h2 : h = 2
+  · subst h2; rfl
+  by_cases h3 : h = 3
+  · subst h3; rfl
+  simp only [h1, h2, h3, if_false]
+  have hn : h.toNat ≠ 1 ∧ h.toNat ≠ 2 ∧ h.toNat ≠ 3 := by omega
+  generalize h.toNat = n at hn
+  match n, hn with
+  | 0, _ => rfl
+  | 1, hh => exact absurd rfl hh.1
+  | 2, hh => exact absurd rfl hh.2.1
+  | 3, hh => exact absurd rfl hh.2.2
+  | _ + 4, _ => rfl
+
+theorem gen_encapMap (h : Int) :
+    Gen.flNWithDecapsulateHeader_encapMap h = hdrEnum h.toNat ∧ Gen.flNWithEncapsulateHeader_encapMap h = hdrEnum h.toNat :=
+  ⟨encapTable _ (fun _ => rfl) h, encapTable _ (fun _ => rfl) h⟩
+
+/-- every translated next-hop method is the model's `apply` of its call, whether the payload
+message existed before the call or is allocated by it -/
+theorem gen_nh_step (s : StN) (c : GNhCall) (b : NhB) (hb : absN s = obsOfNhB b) :
+    absN (runN s c) = obsOfNhB (b.apply c.toModel) := by
+  obtain ⟨pb, ni, e⟩ := s
+  obtain ⟨idx, nh⟩ := pb
+  simp only [absN, obsOfNhB, NhObs.mk.injEq] at hb
+  obtain ⟨h1, h2, h3, h4, h5, h6, h7, h8, h9, h10, h11, h12, h13⟩ := hb
+  cases c <;> cases nh <;>
+    simp [absN, obsOfNhB, runN, GNhCall.toModel, NhB.apply, (gen_encapMap _).1, (gen_encapMap _).2, flNWithIndex, flNWithNetworkInstance,
+      flNWithIPAddress, flNWithInterfaceRef, flNWithSubinterfaceRef, flNWithMacAddress, flNWithIPinIP,
+      flNWithNextHopNetworkInstance, flNWithPopTopLabel, flNWithDecapsulateHeader, flNWithEncapsulateHeader,
+      flNWithElectionID, elecOf, ← h1, ← h2, ← h3, ← h4, ← h5, ← h6, ← h7, ← h8, ← h9, ← h10, ← h11, ← h12, ← h13]
+
+theorem gen_nh_chain (cs : List GNhCall) (s : StN) (b : NhB) (hb : absN s = obsOfNhB b) :
+    absN (cs.foldl runN s) = obsOfNhB ((cs.map GNhCall.toModel).foldl NhB.apply b) := by
+  induction cs generalizing s b with
+  | nil => exact hb
+  | cons c t ih => simp only [List.foldl_cons, List.map_cons]; exact ih _ _ (gen_nh_step s c b hb)
+
+/-- the parts of the payload the translated methods do not own (the pushed label stack, the
+encapsulation headers) are left exactly as they are by every one of them -/
+theorem gen_nh_frame (s : StN) (c : GNhCall) :
+    ((runN s c).1.NextHop.map (·.PushedMplsLabelStack)).getD [] = (s.1.NextHop.map (·.PushedMplsLabelStack)).getD [] ∧
+    ((runN s c).1.NextHop.map (·.EncapHeader)).getD 0 = (s.1.NextHop.map (·.EncapHeader)).getD 0 := by
+  obtain ⟨pb, ni, e⟩ := s
+  obtain ⟨idx, nh⟩ := pb
+  cases c <;> cases nh <;> simp [runN, flNWithIndex, flNWithNetworkInstance,
+      flNWithIPAddress, flNWithInterfaceRef, flNWithSubinterfaceRef, flNWithMacAddress, flNWithIPinIP,
+      flNWithNextHopNetworkInstance, flNWithPopTopLabel, flNWithDecapsulateHeader, flNWithEncapsulateHeader,
+      flNWithElectionID]
+
+theorem gen_nh_opProto (s : StN) :
+    (flNOpProto s.1 s.2.1 s.2.2).1 = some { NetworkInstance := s.2.1, Entry := some (.NextHop (some s.1)), ElectionId := s.2.2 } ∧
+    (flNOpProto s.1 s.2.1 s.2.2).2.1 = none ∧ (flNOpProto s.1 s.2.1 s.2.2).2.2 = s := by
+  obtain ⟨pb, ni, e⟩ := s
+  exact ⟨rfl, rfl, rfl⟩
+
+theorem gen_nh_entryProto (s : StN) :
+    (flNEntryProto s.1 s.2.1 s.2.2).1 = some { NetworkInstance := s.2.1, Entry := some (.NextHop (some s.1)) } ∧
+    (flNEntryProto s.1 s.2.1 s.2.2).2.1 = none ∧ (flNEntryProto s.1 s.2.1 s.2.2).2.2 = s := by
+  obtain ⟨pb, ni, e⟩ := s
+  exact ⟨rfl, rfl, rfl⟩
+
+theorem gen_nh_constructor :
+    Gen.flNewNextHopEntry = some { pb := initN.1, ni := initN.2.1, electionID := initN.2.2 } := rfl
+
+theorem gen_nh_translated :
+    Gen.flNewNextHopEntry_problem = none ∧ Gen.flNWithIndex_problem = none ∧ Gen.flNWithNetworkInstance_problem = none ∧
+    Gen.flNWithIPAddress_problem = none ∧ Gen.flNWithInterfaceRef_problem = none ∧ Gen.flNWithSubinterfaceRef_problem = none ∧
+    Gen.flNWithMacAddress_problem = none ∧ Gen.flNWithIPinIP_problem = none ∧ Gen.flNWithNextHopNetworkInstance_problem = none ∧
+    Gen.flNWithPopTopLabel_problem = none ∧ Gen.flNWithDecapsulateHeader_problem = none ∧
+    Gen.flNWithEncapsulateHeader_problem = none ∧ Gen.flNWithElectionID_problem = none ∧ Gen.flNOpProto_problem = none ∧
+    Gen.flNEntryProto_problem = none := ⟨rfl, rfl, rfl, rfl, rfl, rfl, rfl, rfl, rfl, rfl, rfl, rfl, rfl, rfl, rfl⟩
 
 /-! ### the Get and Flush request builders -/
 
